@@ -30,6 +30,14 @@ func (v *VerifQueue) Empty() bool                         { return v.q.Empty() }
 func (v *VerifQueue) SetMaxSegmentSize(size int64) error  { return v.q.SetMaxSegmentSize(size) }
 func (v *VerifQueue) PurgeOlderThan(when time.Time) error { return v.q.PurgeOlderThan(when) }
 func (v *VerifQueue) LimiterLen() int                     { return len(v.q.limiter) }
+func (v *VerifQueue) TrimExhausted() error                { return v.q.TrimExhausted() }
+
+// VerifSetMaxSegmentSize sets the segment size of the processor's queue, which
+// the configuration does not expose, so that a simulated history can span
+// several segments with small writes.
+func (n *NodeProcessor) VerifSetMaxSegmentSize(size int64) error {
+	return n.queue.SetMaxSegmentSize(size)
+}
 
 // TakeTokens takes up to n tokens of the queue's write limiter, as n writers
 // inside Append would, and returns how many it got; ReleaseTokens gives n back.
